@@ -3,6 +3,7 @@
 and that one document serves every parser configuration. -/
 import XsdataModel.Props.C01Wide
 import XsdataModel.Proofs.C01NDoc
+import XsdataModel.Proofs.C01NMono
 
 namespace Props.C01
 open Py Xs.Bind Xs.Bind.F1 Xs.Bind.FN Proofs.C01
@@ -57,6 +58,55 @@ theorem bind_document_injective (ft : Feat) (e : BEnv) (Γ : Ctx) (cfg₁ cfg₂
   subst heq
   rw [hp₂] at hp₁; cases hp₁
   rfl
+
+/-! ### the fragments form a chain -/
+
+/-- every feature switched on, with the given `inherit` flag (`featTop true = featF10`) -/
+def featTop (inh : Bool) : Feat := { featF10 with inherit := inh }
+
+example : featTop true = featF10 := rfl
+
+theorem featLe_top (ft : Feat) : FeatLe ft (featTop ft.inherit) :=
+  ⟨fun _ => rfl, fun _ => rfl, fun _ => rfl, fun _ => rfl, fun _ => rfl, fun _ => rfl, fun _ => rfl,
+    fun _ => rfl, fun _ => rfl, rfl⟩
+
+/-- **C01, monotonicity.** The universe hypothesis only grows with the feature set (for a fixed `inherit`
+flag, which also demands that no attribute is declared under the name `xsi:type`): a universe of any
+fragment is a universe of the top fragment. -/
+theorem ctxOK_top (ft : Feat) (Γ : Ctx) (h : ctxOK ft Γ = true) : ctxOK (featTop ft.inherit) Γ = true :=
+  ctxOK_mono (featLe_top ft) Γ h
+
+/-- **C01, the feature-indexed part of `bind_generate_partial` needs two feature sets only**: an instance
+lies in some fragment iff it lies in the top fragment without or with inheritance. -/
+theorem fragments_collapse (e : BEnv) (Γ : Ctx) (c : ClassId) (v : Val) :
+    (∃ ft : Feat, ctxOK ft Γ = true ∧ valOKI ft.inherit e Γ c v = true) ↔
+    (∃ inh : Bool, ctxOK (featTop inh) Γ = true ∧ valOKI inh e Γ c v = true) := by
+  constructor
+  · rintro ⟨ft, hΓ, hv⟩
+    exact ⟨ft.inherit, ctxOK_top ft Γ hΓ, hv⟩
+  · rintro ⟨inh, hΓ, hv⟩
+    exact ⟨featTop inh, hΓ, hv⟩
+
+/-- the chain of the named fragments: F2 ⊆ F3 ⊆ F4 ⊆ F5 ⊆ F6 (without inheritance) and
+F7 ⊆ F8 ⊆ F9 ⊆ F10 (with) -/
+theorem fragment_chain (Γ : Ctx) :
+    (ctxOK featF2 Γ = true → ctxOK featF3 Γ = true) ∧ (ctxOK featF3 Γ = true → ctxOK featF4 Γ = true) ∧
+    (ctxOK featF4 Γ = true → ctxOK featF5 Γ = true) ∧ (ctxOK featF5 Γ = true → ctxOK featF6 Γ = true) ∧
+    (ctxOK featF7 Γ = true → ctxOK featF8 Γ = true) ∧ (ctxOK featF8 Γ = true → ctxOK featF9 Γ = true) ∧
+    (ctxOK featF9 Γ = true → ctxOK featF10 Γ = true) := by
+  have le : ∀ ft ft' : Feat, (ft.nillable → ft'.nillable) → (ft.tokens → ft'.tokens) → (ft.wrapper → ft'.wrapper) →
+      (ft.sequence → ft'.sequence) → (ft.fixed → ft'.fixed) → (ft.anyAttrs → ft'.anyAttrs) →
+      (ft.wildcard → ft'.wildcard) → (ft.union → ft'.union) → (ft.qname → ft'.qname) →
+      ft.inherit = ft'.inherit → ctxOK ft Γ = true → ctxOK ft' Γ = true :=
+    fun ft ft' a b c d e f g h i j => ctxOK_mono ⟨a, b, c, d, e, f, g, h, i, j⟩ Γ
+  refine ⟨le _ _ ?_ ?_ ?_ ?_ ?_ ?_ ?_ ?_ ?_ rfl, le _ _ ?_ ?_ ?_ ?_ ?_ ?_ ?_ ?_ ?_ rfl,
+    le _ _ ?_ ?_ ?_ ?_ ?_ ?_ ?_ ?_ ?_ rfl, le _ _ ?_ ?_ ?_ ?_ ?_ ?_ ?_ ?_ ?_ rfl,
+    le _ _ ?_ ?_ ?_ ?_ ?_ ?_ ?_ ?_ ?_ rfl, le _ _ ?_ ?_ ?_ ?_ ?_ ?_ ?_ ?_ ?_ rfl,
+    le _ _ ?_ ?_ ?_ ?_ ?_ ?_ ?_ ?_ ?_ rfl⟩ <;> decide
+
+/-- an F2 universe is a universe of the top fragment without inheritance, an F9 universe of F10 -/
+example : ctxOK (featTop false) Γw6 = true := ctxOK_top featF2 Γw6 (by decide)
+example : ctxOK featF10 Γ9 = true := (fragment_chain Γ9).2.2.2.2.2.2 (by decide)
 
 /-! ### instances -/
 
